@@ -90,6 +90,13 @@ def evStr : Ev → Option String
       | some o => toString o
       | none => if a.site = 2 then "z" else "n"
     some s!"C{d},{a.len},{a.frame_size},{if a.withDec then 1 else 0},{a.accum}@{ptrStr p}={ret}"
+  -- the gain pass (:654-668) and the four cross-fades (one `smooth_fade` of F2_5·channels samples each) are observed by
+  -- the harness; the plain copies (sites 1-3, 5, 7, 9) are not
+  | .acc 11 p n => some s!"G{n}@{ptrStr p}"
+  | .acc 4 _ n => some s!"F{n}"
+  | .acc 6 _ n => some s!"F{n / 2}"
+  | .acc 8 _ n => some s!"F{n / 2}"
+  | .acc 10 _ n => some s!"F{n}"
   | .acc _ _ _ => none
   | .silkReset => some "R"
   | .clip p n ch => some s!"K{n},{ch}@{ptrStr p}"
